@@ -128,7 +128,12 @@ TrTableRT == /\ IsEvent("TableRoundTrip") /\ Ev.res = "ok" /\ Ev.same = 1
 TrDupLoad == /\ IsEvent("DupLoad") /\ Ev.res = "refused"
              /\ UNCHANGED <<durable, closeDig, img, slen, pos, origDig>>
 
-TraceNext == \/ TrReset \/ TrTableRT \/ TrDupLoad \/ TrCreated \/ TrNoop \/ TrPersist \/ TrImage \/ TrClose \/ TrReopen
+\* a table dumped from the OPEN database (changes possibly not persisted yet) and loaded into
+\* a fresh database is the table as it was visible at that moment
+TrLiveDump == /\ IsEvent("LiveDump") /\ Ev.res = "ok" /\ Ev.same = 1
+              /\ UNCHANGED <<durable, closeDig, img, slen, pos, origDig>>
+
+TraceNext == \/ TrReset \/ TrTableRT \/ TrDupLoad \/ TrLiveDump \/ TrCreated \/ TrNoop \/ TrPersist \/ TrImage \/ TrClose \/ TrReopen
              \/ TrAsofAt \/ TrAsofStep \/ TrAsofFuture \/ TrTrial \/ TrOriginal \/ TrSame
 TraceSpec == TraceInit /\ [][TraceNext]_tvars
 HW == HWMark(l)
